@@ -155,6 +155,9 @@ void CodePrinter::bvisit(const Interval &x)
             s << " <= ";
         }
         s << apply(x.get_end());
+    } else if (is_inf) {
+        // (-oo, oo): no bound to test
+        s << print_scalar_literal(1.0);
     }
     str_ = s.str();
 }
